@@ -69,7 +69,10 @@ def allowed_abort(t, til):
         return False
     name = cp[-1][0]
     parent = til.ptypes.get(cp[:-1])
-    if parent == "Command" and name == "commandCode" and len(cp) == 2:
+    if parent in ("Command", "Response") and name == "commandCode" and len(cp) == 2:
+        # unknown command code; for a response also a missing one (its command was abandoned before the code was read)
+        if e["value"] is None:
+            return parent == "Response"
         return not R.in_intervals(e["value"], P["types"]["TPM_CC"]["valid"]) or str(e["value"]) not in P["areas"]
     d = P["types"].get(parent) or P["area_types"].get(parent)
     if d and d["kind"] == "struct":
@@ -202,6 +205,14 @@ def bad_streams(rng, n):
         if not faults:
             continue
         f = rng.choice(faults)
+        # every few streams: a command that is abandoned before / at its commandCode (its response has no code to go by)
+        cmds = [i for i, x in enumerate(msgs[:-1]) if x.t == "Command"]
+        if cmds and rng.random() < 0.3:
+            k = rng.choice(cmds)
+            m = msgs[k]
+            v = rng.choice((0, 2, 6, 9))
+            f = cases.Case("Command", m.d[:2] + v.to_bytes(4, "big") + m.d[6:], origin="bad-stream",
+                           fault=dict(kind="size", field=".commandSize", fkind="message", change=f"={v}", old=len(m.d), new=v), sig=("size", "Command", None, "message", ".commandSize", f"={v}"))
         data = b"".join(x.d for x in msgs[:k]) + f.d + b"".join(x.d for x in msgs[k + 1 :])
         yield cases.Case("CommandResponseStream", data, origin="bad-stream",
                          fault=dict(kind="stream-size", message=k, of=len(msgs), **{kk: vv for kk, vv in f.fault.items() if kk != "kind"}),
